@@ -8,6 +8,24 @@ from names import *
 from p_gate import edge_region
 
 OP_T = "libxcp::operations::Operation"
+_OPW = {"types": (OP_T,)}
+
+
+def _op_types(fx):
+    """The work item of the walker->worker queue: Operation itself, or a workspace struct that carries one
+    (`Job { seq, op }`)."""
+    out = [OP_T]
+    for p_, a_ in getattr(fx, "adts", {}).items():
+        if a_.get("kind") == "struct" and p_.split("::")[0] in ("libxcp", "xcp"):
+            for v_ in a_.get("variants", []):
+                if any((fl_.get("ty") or "") == OP_T for fl_ in v_.get("fields", [])):
+                    out.append(p_)
+    _OPW["types"] = tuple(out)
+    return _OPW["types"]
+
+
+def _has_op(ty):
+    return any(w in ty for w in _OPW["types"])
 UPD_T = "libxcp::feedback::StatusUpdate"
 DYN_UPD = "dyn libxcp::feedback::StatusUpdater"
 VEC_PUSH = "alloc::vec::Vec::<T, A>::push"
@@ -394,6 +412,7 @@ def sender_protocol(fx):
     moved (never cloned) into exactly one spawned closure, and that closure is the walker role, which owns it by
     value -- so the queue closes when the walker returns, on every path.  Evaluated on the inlined views of both
     copy() functions (helpers that spawn the walker are followed)."""
+    _op_types(fx)
     import views
     obs = []
     n = 0
@@ -401,7 +420,7 @@ def sender_protocol(fx):
         for bi, t in f.calls():
             p = callee_path(t) or ""
             if p.startswith("<crossbeam_channel::channel::Sender<T> as core::clone::Clone>::clone") and \
-                    OP_T in " ".join(t.get("arg_tys", [])):
+                    _has_op(" ".join(t.get("arg_tys", []))):
                 obs.append(Ob("R-THREAD", mkkey("R-THREAD", f.path, "Sender<Operation>::clone", n), False, q.loc_of(t), f.path,
                               "the work-queue sender is cloned: the queue no longer closes when the walker returns",
                               dict(callee=p)))
@@ -417,7 +436,7 @@ def sender_protocol(fx):
         du = defuse(f)
         found = 0
         for bi, t in q.calls_to(f, UNBOUNDED):
-            if OP_T not in t.get("dest_ty", ""):
+            if not _has_op(t.get("dest_ty", "")):
                 continue
             found += 1
             senders = []
@@ -447,7 +466,7 @@ def sender_protocol(fx):
                 for c in moved_into:
                     cf = fx.fn(c)
                     okw = c in walker_roles
-                    byv = cf is not None and all(x["by"] == "value" for x in cf.captures if "Sender<" in x["ty"] and OP_T in x["ty"])
+                    byv = cf is not None and all(x["by"] == "value" for x in cf.captures if "Sender<" in x["ty"] and _has_op(x["ty"]))
                     obs.append(Ob("R-THREAD", mkkey("R-THREAD", d, "work-queue sender", 0, "owned-by-walker"), okw and byv,
                                   cf.loc() if cf else "", c,
                                   "the closure owning the sender (by value: %s) is the role that walks the tree: %s" % (byv, okw)))
@@ -458,7 +477,7 @@ def sender_protocol(fx):
                         for bi2, t2 in wv.calls():
                             o2 = callee_orig(t2)
                             if o2 in (VEC_PUSH, "core::mem::forget", "alloc::boxed::Box::<T>::leak", SPAWN) and \
-                                    any("Sender<" in ty and OP_T in ty for ty in t2.get("arg_tys", [])):
+                                    any("Sender<" in ty and _has_op(ty) for ty in t2.get("arg_tys", [])):
                                 leaks.append(q.loc_of(t2))
                     obs.append(Ob("R-THREAD", mkkey("R-THREAD", d, "work-queue sender", 0, "not-leaked"), not leaks,
                                   cf.loc() if cf else "", c,
@@ -468,7 +487,7 @@ def sender_protocol(fx):
             obs.append(anchor_ob("R-THREAD", "%s creates the Operation work queue" % d))
     # consumers end when the queue closes: blocking iteration, no polling
     for lab, f in views.workers(fx):
-        it = [t for bi, t in f.calls() if "Receiver<" + OP_T in " ".join(t.get("arg_tys", [])) and callee_orig(t) in (
+        it = [t for bi, t in f.calls() if any("Receiver<" + w_ in " ".join(t.get("arg_tys", [])) for w_ in _OPW["types"]) and callee_orig(t) in (
             INTO_ITER, "crossbeam_channel::channel::Receiver::<T>::iter", "crossbeam_channel::channel::Receiver::<T>::recv")]
         obs.append(Ob("R-THREAD", mkkey("R-THREAD", lab, "Receiver<Operation>", 0, "iterated"), bool(it), f.loc(), lab,
                       "%s consumes its queue with the blocking iterator that ends when the queue closes: %s" % (lab, bool(it))))
@@ -491,6 +510,7 @@ def sender_protocol(fx):
 # --------------------------------------------------------------------------
 
 def channels_unbounded(fx):
+    _op_types(fx)
     obs = []
     k = 0
     nun = 0
@@ -768,6 +788,7 @@ def thread_roles(fx, _memo={}):
     """role name -> entry function path. Roles: main, closures given to thread::spawn, closures given to the pool.
     Found in the functions as written and, for closures that reach the spawn through a generic helper
     (`crew.spawn_worker(move || ..)`), in the inlined views of the entry points and of the roles found so far."""
+    _op_types(fx)
     k = id(fx)
     if k in _memo and _memo[k][0] is fx:
         return _memo[k][1], _memo[k][2]
@@ -844,6 +865,7 @@ def virtual_impls(fx, trait_item):
 
 
 def wait_graph(fx):
+    _op_types(fx)
     roles, kinds = thread_roles(fx)
     entries = set(roles.values())
     code = {r: role_code(fx, e, entries) for r, e in roles.items()}
@@ -856,7 +878,7 @@ def wait_graph(fx):
             f = fx.fns[p]
             for bi, t in f.calls():
                 o = callee_orig(t)
-                if o == CB_SEND and OP_T in " ".join(t.get("arg_tys", [])):
+                if o == CB_SEND and _has_op(" ".join(t.get("arg_tys", []))):
                     sends_op.add(r)
                 if o == SEND:
                     sends_upd.add(r)
@@ -886,7 +908,7 @@ def wait_graph(fx):
                             edges[(r, r2)] = "%s at %s" % (o.split("::")[-1], q.loc_of(t))
                 elif (o == NEXT and "crossbeam_channel::channel::IntoIter<" in pth) or \
                         o in ("crossbeam_channel::channel::Receiver::<T>::recv",):
-                    who = sends_op if OP_T in tys else sends_upd if UPD_T in tys else set()
+                    who = sends_op if _has_op(tys) else sends_upd if UPD_T in tys else set()
                     for r2 in who:
                         if r2 != r:
                             edges[(r, r2)] = "receive at %s" % q.loc_of(t)
@@ -894,6 +916,7 @@ def wait_graph(fx):
 
 
 def wait_for_acyclic(fx):
+    _op_types(fx)
     obs = []
     roles, kinds, code, edges = wait_graph(fx)
     if len(roles) < 6:
